@@ -11,6 +11,8 @@
     read back as their zero value (so an extra whose unset fields are zero is transmitted unchanged);
     every one of the 2^32 flag words is covered, including bits that guard no field. *)
 From TLV Require Import Prim.PrimModel Frame.FrameHdrModel Frame.FrameHdrProofs.
+(* the extraction of the "frame" family covers both models; keep the other one built with this file *)
+From TLV Require Frame.FrameModel.
 Open Scope N_scope.
 
 Theorem C40_request_extra_codec_exact : forall e rest, req_extra_ok e ->
